@@ -17,7 +17,7 @@ from fractions import Fraction
 from .. import symx, terms as T
 from ..frontend import AnalysisError
 from ..poly import Algebra, Poly, Rat
-from ..rules import outcomes, conjuncts
+from ..rules import outcomes, conjuncts, split_phi_outcomes, prop_unsat, simplify_cond
 from .. import effects, guards
 
 MANIFEST = {
@@ -39,6 +39,54 @@ def msym(i, j):
     return T.sym("m%d%d" % (i, j))
 
 
+XL = ("attr", T.sym("self"), "_x")
+YL = ("attr", T.sym("self"), "_y")
+
+
+def _strip_copy(t):
+    while t[0] == "call" and t[1] in ("list", "tuple") and len(t) == 3:
+        t = t[2]
+    return t
+
+
+def canon_points(loop, inc):
+    """substitution that rewrites the references of one loop iteration to the current data point as X / Y, whatever the
+    iteration idiom: for i in range(N): xs[i]; for i, v in enumerate(xs): v, ys[i]; for x, y in zip(xs, ys); for v in xs.
+    Returns (mapping, covers_all_points) or (None, reason)."""
+    header = loop[2]
+    if header is None or header[0] != "for":
+        return None, "not a for loop"
+    it, tn = _strip_copy(header[1]), (header[2] if len(header) > 2 else ())
+    lid = loop[1]
+    lt = lambda n: ("lt", lid, n)
+    sym_of = {XL: T.sym("X"), YL: T.sym("Y")}
+    mp = {}
+    pos = None
+    covers = True
+    if it[0] == "call" and it[1] == "range" and len(tn) == 1:
+        pos = lt(tn[0])
+        covers = len(it) == 3          # range(N): N is checked by the caller
+    elif it[0] == "call" and it[1] == "enumerate" and len(it) == 3 and len(tn) == 2:
+        pos = lt(tn[0])
+        base = _strip_copy(it[2])
+        if base in sym_of:
+            mp[lt(tn[1])] = sym_of[base]
+    elif it[0] == "call" and it[1] == "zip" and len(tn) == len(it) - 2:
+        for n_, a_ in zip(tn, it[2:]):
+            base = _strip_copy(a_)
+            if base in sym_of:
+                mp[lt(n_)] = sym_of[base]
+    elif it in sym_of and len(tn) == 1:
+        mp[lt(tn[0])] = sym_of[it]
+    else:
+        return None, "iteration idiom not recognised"
+    if pos is not None:
+        for x in T.walk(inc):
+            if x[0] == "idx" and x[2] == pos and _strip_copy(x[1]) in sym_of:
+                mp[x] = sym_of[_strip_copy(x[1])]
+    return mp, covers
+
+
 def moments_of_fields(repo, rep):
     """O1: field -> (i, j) derived from _compute_parameters"""
     q = "CurveFitting._compute_parameters"
@@ -49,24 +97,21 @@ def moments_of_fields(repo, rep):
         raise AnalysisError("_compute_parameters has no exit")
     env = rets[-1].env
     table = {}
-    X = lambda it: ("idx", ("attr", T.sym("self"), "_x"), it)
+    unknown = []
     alg = Algebra()
     for k, v in env.items():
         if not k.startswith("self._"):
             continue
         f = k[5:]
-        if v[0] == "call" and v[1] == "len" and v[2] == ("attr", T.sym("self"), "_x"):
+        if v[0] == "call" and v[1] == "len" and len(v) == 3 and _strip_copy(v[2]) in (XL, YL):
             table[f] = (0, 0)
-        elif v[0] == "call" and v[1] == "fsum" and v[2] == ("attr", T.sym("self"), "_x"):
+        elif v[0] == "call" and v[1] in ("fsum", "sum") and len(v) == 3 and _strip_copy(v[2]) == XL:
             table[f] = (1, 0)
-        elif v[0] == "call" and v[1] == "fsum" and v[2] == ("attr", T.sym("self"), "_y"):
+        elif v[0] == "call" and v[1] in ("fsum", "sum") and len(v) == 3 and _strip_copy(v[2]) == YL:
             table[f] = (0, 1)
         elif v[0] == "loopout":
             loop = v[2]
             header, inits, body = loop[2], dict(loop[3]), dict(loop[4])
-            if header[0] != "for":
-                continue
-            it = header[1]
             # for i in range(self._N) over all points
             bt = body.get(k)
             init = inits.get(k)
@@ -75,14 +120,16 @@ def moments_of_fields(repo, rep):
                 continue
             lv = ("lv", loop[1], k)
             inc = T.sub(bt, lv)
+            mp, covers = canon_points(loop, inc)
+            if mp is None:
+                rep.inconcl("R-E4-ID", MOD + "." + q, "accumulation loop of %s: %s" % (f, covers))
+                unknown.append(f)
+                continue
             # the increment must be a monomial in x_i, y_i of the loop's own index
-            lts = [x for x in T.walk(inc) if x[0] == "lt"]
-            if len(set(lts)) != 1:
+            inc2 = T.subst(inc, mp)
+            if any(x[0] in ("lt", "idx", "lv") for x in T.walk(inc2)):
                 rep.violation("R-E4-ID", MOD + "." + q, "acc-index:" + f, "increment of %s does not use exactly the current point" % f, obligation=True)
                 continue
-            xi = ("idx", ("attr", T.sym("self"), "_x"), lts[0])
-            yi = ("idx", ("attr", T.sym("self"), "_y"), lts[0])
-            inc2 = T.subst(inc, {xi: T.sym("X"), yi: T.sym("Y")})
             r = alg.rat(inc2)
             if not r.d.is_const() or len(r.n.t) != 1:
                 rep.violation("R-E4-ID", MOD + "." + q, "acc-form:" + f, "increment of %s is not a single monomial x^i*y^j: %s" % (f, T.show(inc2)[:80]), obligation=True)
@@ -94,8 +141,12 @@ def moments_of_fields(repo, rep):
             d = dict(mono)
             table[f] = (d.get(("V", "X"), 0), d.get(("V", "Y"), 0))
             # range covers all points
-            if not (it[0] == "call" and it[1] == "range" and len(it) == 3):
-                rep.violation("R-E4-ID", MOD + "." + q, "acc-range:" + f, "accumulation loop is not `for i in range(N)`", obligation=True)
+            it = header[1]
+            if it[0] == "call" and it[1] == "range":
+                nfields = [T.call("len", XL), T.call("len", YL)] + [("attr", T.sym("self"), "_" + g) for g, ij in table.items() if ij == (0, 0)]
+                if not (len(it) == 3 and (it[2] in nfields or env.get("self." + it[2][2] if it[2][0] == "attr" else "") in nfields[:2])):
+                    rep.violation("R-E4-ID", MOD + "." + q, "acc-range:" + f, "accumulation loop is not `for i in range(N)` with N the number of points", obligation=True)
+    table["$unknown"] = unknown
     return table
 
 
@@ -137,12 +188,9 @@ def guarded_division(rep, site, outs):
         for d in dens:
             guard = ("cmp", "Lt", T.call("abs", d), T.num(Fraction("1e-10")))
             pos_guard = ("cmp", "GtE", T.call("abs", d), T.num(Fraction("1e-10")))
-            cj = conjuncts(o.cond)
-            if T.lnot(guard) in cj or pos_guard in cj or any(pos_guard in conjuncts(c) for c in cj):
-                raised = any(r.kind == "raise" and r.value == ("str", "ZeroDivisionError") and guard in conjuncts(r.cond) for r in outs)
-                if raised or pos_guard in cj:
-                    rep.ok("R-E4-ID", site + ":div", "division by d is dominated by |d| < TOL -> ZeroDivisionError", obligation=True, sample=False)
-                    continue
+            if prop_unsat(T.land(o.cond, guard)) is True:
+                rep.ok("R-E4-ID", site + ":div", "division by d is dominated by |d| < TOL -> ZeroDivisionError", obligation=True, sample=False)
+                continue
             rep.violation("R-E4-ID", site, "unguarded-division", "a returned coefficient divides by %s without the |d| < TOL -> ZeroDivisionError guard" % T.show(d)[:80], obligation=True)
 
 
@@ -154,11 +202,15 @@ def run(repo, rep, tier):
     rep.assumptions = ["exact real arithmetic"]
     rep.rule("R-E4-ID", "algebraic identity discharged by polynomial normal form")
     table = moments_of_fields(repo, rep)
+    unknown = table.pop("$unknown", [])
     need = {(0, 0), (1, 0), (2, 0), (3, 0), (4, 0), (0, 1), (1, 1), (2, 1), (0, 2)}
     have = set(table.values())
     if need <= have and len(have) == len(table):
         rep.ok("R-E4-ID", MOD + ".CurveFitting._compute_parameters",
                "9 accumulators are the power sums " + ", ".join("%s=S(x^%d y^%d)" % (f, i, j) for f, (i, j) in sorted(table.items())), obligation=True)
+    elif unknown:
+        rep.inconcl("R-E4-ID", MOD + ".CurveFitting._compute_parameters", "accumulators %s are built by a loop whose idiom is not recognised; the closed forms are not decided" % unknown)
+        return "other"
     else:
         rep.violation("R-E4-ID", MOD + ".CurveFitting._compute_parameters", "moments", "accumulators do not provide the nine power sums needed (found %s)" % sorted(table.items()), obligation=True)
     alg = Algebra()
@@ -246,7 +298,7 @@ def general(repo, rep, alg, table, quad):
     names = [a.arg for a in fn.args.args]   # self, f0, f1, f2
     if len(names) != 4:
         raise AnalysisError("general_fitting signature changed")
-    outs = returns_of(repo, q, arg_terms={names[1]: T.sym("F0"), names[2]: T.sym("F1"), names[3]: T.sym("F2")})
+    outs = split_phi_outcomes(returns_of(repo, q, arg_terms={names[1]: T.sym("F0"), names[2]: T.sym("F1"), names[3]: T.sym("F2")}))
     loops = general_sums(outs)
     if len(loops) != 1:
         rep.violation("R-E4-ID", site, "shape", "expected one accumulation loop, found %d" % len(loops), obligation=True)
@@ -261,18 +313,19 @@ def general(repo, rep, alg, table, quad):
         if lv not in set(T.walk(bt)):
             continue
         inc = T.sub(bt, lv)
-        fs = [x for x in T.walk(inc) if x[0] == "call" and x[1] == "apply"]
-        idxs = sorted({int(f[2][1][1]) for f in fs if f[2][0] == "sym" and f[2][1] in ("F0", "F1", "F2")})
+        mp_, why_ = canon_points(loop, inc)
+        if mp_ is None:
+            rep.inconcl("R-E4-ID", site, "accumulation loop: %s" % why_)
+            return
+        inc = T.subst(inc, mp_)
+        FX = [T.call("apply", T.sym("F%d" % i), T.sym("X")) for i in range(3)]
         r = None
-        f_ = lambda i: [f for f in fs if f[2] == T.sym("F%d" % i)][0]
-        if len(idxs) == 1 and inc == T.mul(f_(idxs[0]), f_(idxs[0])):
-            r = (idxs[0], idxs[0])
-        elif len(idxs) == 2 and inc == T.mul(f_(idxs[0]), f_(idxs[1])):
-            r = (idxs[0], idxs[1])
-        elif len(idxs) == 1:
-            others = [fac for fac in (inc[1:] if inc[0] == "mul" else ()) if fac != f_(idxs[0])]
-            if len(others) == 1 and others[0][0] == "idx":
-                r = ("y", idxs[0])
+        for i in range(3):
+            for j in range(i, 3):
+                if inc == T.mul(FX[i], FX[j]):
+                    r = (i, j)
+            if inc == T.mul(T.sym("Y"), FX[i]):
+                r = ("y", i)
         if r is None:
             rep.violation("R-E4-ID", site, "acc-form:" + k, "accumulator %s is not a sum of f_i(x)*f_j(x) or y*f_i(x): %s" % (k, T.show(inc)[:100]), obligation=True)
             return
@@ -354,7 +407,7 @@ def general(repo, rep, alg, table, quad):
     if not is_null_default:
         rep.ok("R-E4-ID", site + ":two-functions", "third basis function has no null default (nothing to decide)", obligation=True)
         return
-    outs2 = returns_of(repo, q, arg_terms={names[1]: T.sym("F0"), names[2]: T.sym("F1"), names[3]: ("zerofn",)})
+    outs2 = split_phi_outcomes(returns_of(repo, q, arg_terms={names[1]: T.sym("F0"), names[2]: T.sym("F1"), names[3]: ("zerofn",)}))
     loops2 = general_sums(outs2)
     rets2 = [o for o in outs2 if o.kind == "ret"]
     good = False
@@ -368,15 +421,17 @@ def general(repo, rep, alg, table, quad):
                 if lv not in set(T.walk(bt)):
                     continue
                 inc = T.sub(bt, lv)
-                fs = [x for x in T.walk(inc) if x[0] == "call" and x[1] == "apply"]
-                idxs = sorted({int(f[2][1][1]) for f in fs if f[2][0] == "sym"})
-                f_ = lambda i: [f for f in fs if f[2] == T.sym("F%d" % i)][0]
-                if len(idxs) == 1 and inc == T.mul(f_(idxs[0]), f_(idxs[0])):
-                    mp2[("loopout", k, l2)] = G(idxs[0], idxs[0])
-                elif len(idxs) == 2:
-                    mp2[("loopout", k, l2)] = G(idxs[0], idxs[1])
-                elif len(idxs) == 1:
-                    mp2[("loopout", k, l2)] = G("y", idxs[0])
+                mp_, _why = canon_points(l2, inc)
+                if mp_ is None:
+                    continue
+                inc = T.subst(inc, mp_)
+                FX = [T.call("apply", T.sym("F%d" % i), T.sym("X")) for i in range(3)]
+                for i in range(3):
+                    for j in range(i, 3):
+                        if inc == T.mul(FX[i], FX[j]):
+                            mp2[("loopout", k, l2)] = G(i, j)
+                    if inc == T.mul(T.sym("Y"), FX[i]):
+                        mp2[("loopout", k, l2)] = G("y", i)
         c = T.subst(o.cond, mp2)
         v = T.subst(o.value, mp2)
         needs_null_f1 = any(cj[0] == "cmp" and cj[1] == "Lt" and cj[2] == T.call("abs", G(1, 1)) for cj in conjuncts(c))
